@@ -761,7 +761,8 @@ fn run_fusedev(c: &Case, asyncmode: bool) -> String {
             Err(_) => { res = "panic".to_string(); panicked = true; }
         }
     }
-    let packets = drain(bfd);
+    // after shutdown(SHUT_WR) nothing can have been written and recv() reports end-of-stream forever
+    let packets = if c.fdfail { vec![] } else { drain(bfd) };
     unsafe { libc::close(a); libc::close(bfd); }
     let canary_ok = wbuf[..pad].iter().all(|x| *x == CANARY) && wbuf[pad + c.cap..].iter().all(|x| *x == CANARY);
     let log = fs.log.lock().unwrap().join(";");
